@@ -29,6 +29,14 @@ Extension (same namespace, sections below), all for every run length and ANY ora
         precision_slack_needed (the slack cannot be dropped), evalGap_guarantees, evalGap_saddle_point,
         loop_certificate, loop_guarantees, loop_guarantees_end_to_end (the two guarantees for the OUTPUT of the loop),
         best_h_store, best_h_returned (cache), project_raises_L (the project_lambda step of _eval)
+  * (review L1) the fragments that used to be hard-coded are now LIFTED and consumed by the model functions: the `L`
+        expression and `max_constraint` of `_eval` (`Saddle.lagr`, `viol`, `maxViol`), the `L_low` update test (`updLow`),
+        the projection order of `_eval` and the body of `project_lambda` (`projLam`, `Saddle.project`), `idxmin` (`argminFrom`),
+        `lambda_EG`'s mean (`meanCols`), `last_gap = inf` (`initState`), `weights_ = Qs[best_iter_]` (`weightsOf`) and the
+        data-flow fact that `Qs` holds a fresh object per iteration (`storeQ`).  Section (3d): eval_L_lifted,
+        eval_max_constraint_lifted, eval_gap_low_update_lifted, eval_projection_lifted, best_h_scan_lifted, lambda_EG_lifted,
+        last_gap_init_lifted, qs_entries_are_snapshots, weights_are_certified_iterate, vec_padTo, loop_guarantees_weights
+        (the certificate for the attribute `weights_` itself)
 
 CLAUSE → THEOREM TABLE (review R2; property text of properties.jsonl, clause by clause)
   0 premise "exact cost-sensitive learner over a finite hypothesis class; constrained problem feasible"
@@ -96,13 +104,13 @@ theorem gap_parts {T : Table} {B g : Rat} {Q lam : Nat → Rat} {cands : List Na
 /-- a feasible mixture has Lagrangian value at most its error, for non-negative multipliers -/
 theorem lagr_feasible_le (T : Table) (lam Q' : Nat → Rat) (hl : ∀ j < T.nC, 0 ≤ lam j)
     (hf : ∀ j < T.nC, gamQ T Q' j ≤ T.c j) : lagr T Q' lam ≤ errQ T Q' := by
-  rw [lagr, sumTo_eq]
+  rw [lagr_def, sumTo_eq]
   have : ∑ j ∈ range T.nC, lam j * viol T Q' j ≤ 0 := by
     apply Finset.sum_nonpos
     intro j hj
     have hj' := Finset.mem_range.mp hj
     have h1 := hl j hj'
-    have h2 : viol T Q' j ≤ 0 := by unfold viol; linarith [hf j hj']
+    have h2 : viol T Q' j ≤ 0 := by rw [viol_def]; linarith [hf j hj']
     exact mul_nonpos_of_nonneg_of_nonpos h1 h2
   linarith
 
@@ -130,7 +138,7 @@ theorem saddle_violation (T : Table) (B g : Rat) (Q lam Q' : Nat → Rat) (hB : 
   have h4 := lagr_feasible_le T lam Q' hl hf.meets
   have h5 := (lHigh_ge T B (le_of_lt hB) Q).2 j hj
   rw [le_div_iff₀ hB]
-  unfold viol at h5
+  rw [viol_def] at h5
   linarith
 
 /-- errors in [0,1] per hypothesis give an error in [0,1] for every distribution -/
@@ -481,7 +489,7 @@ theorem lp_objective_ge_lagr (T : Table) (B : Rat) (Q : List Rat) (t : Rat) (hQ 
     (hf : primalFeasible T (Q ++ [t]) = true) (lam : Nat → Rat) (hl : ∀ j < T.nC, 0 ≤ lam j)
     (hB : ∑ j ∈ range T.nC, lam j ≤ B) : lagr T (vec Q) lam ≤ primalObj T B (Q ++ [t]) := by
   obtain ⟨_, ht, hv⟩ := (lp_feasible_iff_distribution T Q t hQ).mp hf
-  rw [lp_objective T B Q t hQ, lagr, sumTo_eq]
+  rw [lp_objective T B Q t hQ, lagr_def, sumTo_eq]
   have h1 : ∑ j ∈ range T.nC, lam j * viol T (vec Q) j ≤ ∑ j ∈ range T.nC, lam j * t := by
     apply Finset.sum_le_sum
     intro j hj
@@ -773,7 +781,7 @@ theorem evalGap_guarantees (X : Ctx) (O : Nat → Hyp) (TC : Table) (hc : TC.nC 
   · intro he0 he1 j hj
     have := hhigh.2 j hj
     rw [le_div_iff₀ hB]
-    unfold viol at this
+    rw [viol_def] at this
     have hcj : (tableOf X.c hs).c j = vec X.c j := rfl
     rw [hcj] at this
     linarith
@@ -969,7 +977,7 @@ theorem project_raises_L (T : Table) (m : Nat) (c0 : Rat) (Q lam : Nat → Rat) 
     lagr T Q lam ≤ lagr T Q (project m lam) ∧
     lHigh T B Q - lagr T Q (project m lam) ≤ lHigh T B Q - lagr T Q lam := by
   have key : lagr T Q lam ≤ lagr T Q (project m lam) := by
-    unfold lagr
+    rw [lagr_def, lagr_def]
     rw [sumTo_eq, sumTo_eq, hn]
     have e1 : ∀ l : Nat → Rat, ∑ j ∈ range (m + m), l j * viol T Q j
         = ∑ j ∈ range (m + m), l j * gamQ T Q j - c0 * ∑ j ∈ range (m + m), l j := by
@@ -977,12 +985,132 @@ theorem project_raises_L (T : Table) (m : Nat) (c0 : Rat) (Q lam : Nat → Rat) 
       rw [Finset.mul_sum, ← Finset.sum_sub_distrib]
       apply Finset.sum_congr rfl
       intro j hj
-      unfold viol
+      rw [viol_def]
       rw [hc j (Finset.mem_range.mp hj)]; ring
     rw [e1 lam, e1 (project m lam), project_dot m lam (gamQ T Q) hg]
     have := Saddle.project_l1_le m lam hl
     nlinarith
   exact ⟨key, by linarith⟩
+
+/-! ### (3d) review L1: the lifted `_eval` / `eval_gap` / `fit` fragments the certificate depends on
+
+Each statement below is about a definition that is computed with text LIFTED from the source on every run
+(`Generated/EGGen.lean`, `EGLoopGen.lean`, `ProjectLambdaSrc.lean`); the closed form on the right is what all theorems of
+this file use (through `Lemmas/Saddle.lean:lagr_def/viol_def/maxViol_def/src_posOf/src_negOf`,
+`Lemmas/EGCert.lean:lowImproves_iff/argBetter_iff/projLam_def`, `Lemmas/EGLoop.lean:storeQ_fresh/meanCols_def`).  An edit of
+the corresponding source line changes the generated text and the named theorem stops checking. -/
+
+/-- `L = error + np.sum(lambda_vec * (gamma - self.constraints.bound()))` -/
+theorem eval_L_lifted (T : Table) (Q lam : Nat → Rat) :
+    lagr T Q lam = errQ T Q + ∑ j ∈ range T.nC, lam j * (gamQ T Q j - T.c j) := by
+  rw [lagr_def, sumTo_eq]
+  simp only [viol_def]
+
+/-- `max_constraint = (gamma - self.constraints.bound()).max()`: an upper bound of every violation that is attained -/
+theorem eval_max_constraint_lifted (T : Table) (Q : Nat → Rat) (h : 0 < T.nC) :
+    (∀ j < T.nC, gamQ T Q j - T.c j ≤ maxViol T Q) ∧ ∃ j < T.nC, maxViol T Q = gamQ T Q j - T.c j := by
+  constructor
+  · intro j hj
+    rw [← viol_def]; exact viol_le_maxViol T Q j hj
+  · obtain ⟨j, hj, hm⟩ := LinProg.maxViol_attained T Q h
+    exact ⟨j, hj, by rw [hm, viol_def]⟩
+
+/-- `if L_low_mul < result.L_low: result.L_low = L_low_mul`: `L_low` becomes the minimum of the two, `L` and `L_high`
+    are untouched (with the comparison flipped `L_low` would be a running MAXIMUM and `gap_ge_true_gap` would fail) -/
+theorem eval_gap_low_update_lifted (r : GapRes) (x : Rat) :
+    (updLow r x).Llow = (if x < r.Llow then x else r.Llow) ∧ (updLow r x).L = r.L ∧ (updLow r x).Lhigh = r.Lhigh := by
+  unfold updLow
+  by_cases h : x < r.Llow
+  · rw [if_pos ((lowImproves_iff _ _).mpr h), if_pos h]; exact ⟨rfl, rfl, rfl⟩
+  · have : ¬ EGGen.lowImproves x r.Llow = true := fun hh => h ((lowImproves_iff _ _).mp hh)
+    rw [if_neg this, if_neg h]; exact ⟨rfl, rfl, rfl⟩
+
+/-- `_eval` computes `L` with the PROJECTED multiplier (the projection statement precedes `L = ...`), and the projection is
+    the lifted `UtilityParity.project_lambda` for ratio 1: positive part of `λ⁺ − λ⁻` on the `+` half, of `λ⁻ − λ⁺` on the
+    `-` half (`m` pairs); identity otherwise -/
+theorem eval_projection_lifted (X : Ctx) (lam : List Rat) (j : Nat) :
+    projLam X lam j =
+      if X.ratioOne then
+        (if j < X.c.length / 2 then Saddle.posPart (vec lam j - vec lam (j + X.c.length / 2))
+         else Saddle.posPart (vec lam j - vec lam (j - X.c.length / 2)))
+      else vec lam j := by
+  rw [projLam_def]
+  unfold projectIf project
+  cases X.ratioOne
+  · simp
+  · simp only [if_true]
+    split
+    · rw [src_posOf]
+    · rw [src_negOf]
+
+/-- `best_idx = values.idxmin()`: scanning in index order, a later stored value replaces the current best only when it is
+    strictly smaller (first minimum) -/
+theorem best_h_scan_lifted (v : Rat) (vs : List Rat) (i bi : Nat) (bv : Rat) :
+    argminFrom (v :: vs) i bi bv = if v < bv then argminFrom vs (i + 1) i v else argminFrom vs (i + 1) bi bv := by
+  rw [argminFrom]
+  by_cases h : v < bv
+  · rw [if_pos ((argBetter_iff _ _).mpr h), if_pos h]
+  · have : ¬ EGLoopGen.argBetter v bv = true := fun hh => h ((argBetter_iff _ _).mp hh)
+    rw [if_neg this, if_neg h]
+
+/-- `lambda_EG = self.lambda_vecs_EG_.mean(axis=1)` -/
+theorem lambda_EG_lifted (n : Nat) (cols : List (List Rat)) :
+    meanCols n cols = (List.range n).map (fun j => (cols.map (fun col => col.getD j 0)).sum / (cols.length : Rat)) :=
+  meanCols_def n cols
+
+/-- `last_gap = np.inf` before the loop: the first due regret check never shrinks `eta` -/
+theorem last_gap_init_lifted (P : Params) : (initState P).lastGap = none := by
+  simp [initState, EGLoopGen.lastGapInit]
+
+/-- **`Qs` holds the iterates, not aliases of one object**: one pass through the loop body appends exactly the
+    distribution chosen in that pass and leaves every earlier entry of `Qs` as it was.  This needs the lifted data-flow
+    fact `EGLoopGen.qsEntriesFresh` (`Q_EG` / `Q_LP` are re-bound to newly built objects in every pass and never updated
+    in place); the seeded change C08a (`Q_EG *= t/(t+1)` in place) makes it `false`, the model's `storeQ` then rewrites
+    the earlier EG entries — as Python would — and this theorem and `loop_guarantees*` no longer check. -/
+theorem qs_entries_are_snapshots (P : Params) (s : State) (D : Decision) :
+    (finish P s D).qs = s.qs ++ [D.q] := finish_qs P s D
+
+/-- **`weights_` is the certified iterate**: `self.weights_ = Qs[self.best_iter_]` (lifted index `EGGen.weightsPick`)
+    followed by the zero padding.  With `Qs[-1]` / `Qs[0]` in the source the index is another one and this fails. -/
+theorem weights_are_certified_iterate (s : State) (b : Nat) (hb : bestIterOf s = some b) :
+    weightsOf s = padTo s.hs.length (s.qs.getD b []) := by
+  unfold weightsOf
+  rw [hb]
+  simp [EGGen.weightsPick]
+
+/-- zero padding is invisible to every mixture quantity (`vec` reads 0 beyond the end) -/
+theorem vec_padTo (n : Nat) (q : List Rat) : vec (padTo n q) = vec q := by
+  funext i
+  unfold vec padTo
+  rw [List.getD_eq_getElem?_getD, List.getD_eq_getElem?_getD]
+  by_cases hi : i < q.length
+  · rw [List.getElem?_append_left hi]
+  · have hi' : q.length ≤ i := not_lt.mp hi
+    rw [List.getElem?_append_right hi', List.getElem?_eq_none hi', List.getElem?_replicate]
+    split <;> rfl
+
+/-- **the certificate is about `weights_`** (not only about the list entry `Qs[best_iter_]`): `loop_guarantees_explicit`
+    restated for `vec (weightsOf (run P O))`, the attribute the user gets -/
+theorem loop_guarantees_weights {P : Params} (O : Oracles) (TC : Table) (h : LoopHyp P) (hc : TC.nC = P.c.length)
+    (hcc : TC.c = vec P.c) (ha : AntiSym P.ctx TC) (hO : ∀ k, ∃ i, IsMember TC (O.h k) i)
+    (hlpl : ∀ k, ∀ x ∈ (O.lp k).lam, 0 ≤ x) (b : Nat) (hb : bestIterOf (run P O) = some b) :
+    vec (weightsOf (run P O)) = vec ((run P O).certs.getD b default).1.Q ∧
+    ((∀ i < TC.nH, storedValue ((run P O).certs.getD b default).1.lamHat (O.h ((run P O).certs.getD b default).1.k)
+          ≤ classValue TC ((run P O).certs.getD b default).1.lamHat i) →
+      ∀ Q', Feasible TC Q' →
+        errQ (tableOf P.c ((run P O).certs.getD b default).1.hs) (vec (weightsOf (run P O)))
+          ≤ errQ TC Q' + 2 * (run P O).gaps.getD b 0 + EGGen.precision ∧
+        (0 ≤ errQ (tableOf P.c ((run P O).certs.getD b default).1.hs) (vec (weightsOf (run P O))) →
+          errQ TC Q' ≤ 1 → ∀ j < P.c.length,
+          gamQ (tableOf P.c ((run P O).certs.getD b default).1.hs) (vec (weightsOf (run P O))) j - vec P.c j
+            ≤ (1 + 2 * (run P O).gaps.getD b 0 + EGGen.precision) / P.B)) := by
+  obtain ⟨_, hq, _, hrest⟩ := loop_guarantees_explicit O TC h hc hcc ha hO hlpl b hb
+  have hw : vec (weightsOf (run P O)) = vec ((run P O).qs.getD b []) := by
+    rw [weights_are_certified_iterate _ b hb, vec_padTo]
+  refine ⟨by rw [hw, hq], ?_⟩
+  intro hexact Q' hf
+  rw [hw]
+  exact hrest hexact Q' hf
 
 end Cert
 
